@@ -17,9 +17,9 @@ LEVEL = "exploration"
 
 PLAN = {
     "quick": {"hashseeds": 12, "shards": 2, "generated": 240, "skip": ["1gid.cif.gz"], "cli_all_variants": False,
-              "timeout": 600, "light_hashseeds": 16, "light_max_cost": 150_000},
+              "timeout": 600, "light_hashseeds": 16, "light_max_cost": 150_000, "adapter_generated": 36},
     "thorough": {"hashseeds": 48, "shards": 4, "generated": 4000, "skip": [], "cli_all_variants": True,
-                 "timeout": 5400, "light_hashseeds": 80, "light_max_cost": 150_000},
+                 "timeout": 5400, "light_hashseeds": 80, "light_max_cost": 150_000, "adapter_generated": 600},
 }
 
 ASSUMPTIONS = [
@@ -90,6 +90,27 @@ def tool_items(tier):
         if all(os.path.exists(f(n)) for n in needs):
             items.append({"id": "tool/" + name, "type": "tool", "module": module, "argv": argv, "cost": 400000})
     return items
+
+
+ADAPTER_FILES = ["1ehz-assembly-1.cif", "1ehz-assembly-1.cif", "488d.pdb", "1a9n.cif", "1JJP.cif", "6FC9.cif",
+                 "1A1T_1_B.cif", "1ATO.pdb", "1E7K_1_C.cif", "184D.cif", "4qln.pdb", "8btk_B7.cif",
+                 "q-ugg-5k-salt_400-500ns_frame1065.pdb", "4gqj-assembly1.cif"]
+
+
+def adapter_generated_items(tier, seed):
+    """`adapter` runs on small corpus structures with seeded *generated* external annotations that contain
+    conflicting canonical pairs (a residue with two partners, often of equal rank) - the tie situations of
+    Mapping2D3D's conflict resolution that no corpus file offers."""
+    out = []
+    files = [f for f in ADAPTER_FILES if os.path.exists(os.path.join(TESTS, f))]
+    if not files:
+        return out
+    for i in range(PLAN[tier]["adapter_generated"]):
+        s = rng.stream(NAME, tier, seed, i, "adapter")
+        out.append({"id": "adaptergen/%d" % i, "type": "adapter_gen", "path": os.path.join(TESTS, s.choice(files)),
+                    "gen_seed": s.getrandbits(48), "find_gaps": s.random() < 0.25,
+                    "flag": s.choice(["-a", "-e", "-e", "", ""]), "cost": 60000})
+    return out
 
 
 def generated_items(tier, seed):
@@ -304,7 +325,7 @@ def check(tier, seed, workers):
     plan = PLAN[tier]
     tmp = os.path.join(runner.base_tmp(), "c14")
     seeds = hashseeds(tier, seed)
-    items = corpus_items(tier) + tool_items(tier) + generated_items(tier, seed)
+    items = corpus_items(tier) + tool_items(tier) + generated_items(tier, seed) + adapter_generated_items(tier, seed)
     timeout = float(os.environ.get("VERIF_BUDGET_S") or 0) * 4 or plan["timeout"]
     context = {}
     cells, nontrivial, rows_total, failures = explore(items, seeds, plan["shards"], workers, timeout, tmp,
@@ -414,8 +435,10 @@ def check(tier, seed, workers):
     multi = sum(1 for (item, kind), v in nontrivial.items() if v and kind.startswith("all_dot_brackets"))
     kinds = sorted({k for _, k in cells})
     samples = []
-    for it in items[:2] + [x for x in items if x["type"] == "bpseq"][:3]:
-        if it["type"] == "file":
+    for it in items[:2] + [x for x in items if x["type"] == "bpseq"][:3] + [x for x in items if x["type"] == "adapter_gen"][:2]:
+        if it["type"] == "adapter_gen":
+            samples.append({k: it[k] for k in ("id", "path", "gen_seed", "find_gaps", "flag")})
+        elif it["type"] == "file":
             samples.append({"id": it["id"], "path": it["path"], "find_gaps": it["find_gaps"]})
         else:
             samples.append({"id": it["id"], "structure_fcfs": structures.structure_string(it["triples"]),
@@ -439,7 +462,8 @@ def check(tier, seed, workers):
                           "such a difference is replayed by re-running the two complete interpreter contexts",
         "items": {"corpus_file_x_gap_setting": sum(1 for x in items if x["type"] == "file"),
                   "other_command_line_tools": sum(1 for x in items if x["type"] == "tool"),
-                  "generated_structures": sum(1 for x in items if x["type"] == "bpseq")},
+                  "generated_structures": sum(1 for x in items if x["type"] == "bpseq"),
+                  "adapter_runs_with_generated_conflicting_annotations": sum(1 for x in items if x["type"] == "adapter_gen")},
         "cells": len(cells),
         "cells_all_dot_brackets_with_2_or_more_members": multi,
         "output_kinds": kinds,
